@@ -989,6 +989,10 @@ def sin(p):
 def log(p):
     p = to_P(p)
     if not is_real(p):
+        # real-valued although written with complex atoms (1 + 2 e^x cos(phi) + e^2x = |1 + e^(x + i phi)|^2): go through the
+        # square root, whose canonical form the squared-modulus certificate provides:  log z = 2 log sqrt z
+        if conj(p).same(p):
+            return 2 * log(sqrt(p))
         raise Unmodelled("log of a complex element")
     if len(p.t) == 1:
         (m, c), = p.t.items()
